@@ -630,6 +630,14 @@ coap_ws_read(coap_session_t *session, uint8_t *data, size_t datalen) {
       return 0;
   }
 
+  if (session->ws->all_hdr_in && session->ws->data_ofs &&
+      session->ws->partial_data) {
+    /* Continue with the part of the payload collected by earlier calls */
+    if (session->ws->data_size > datalen)
+      return -1;
+    memcpy(data, session->ws->partial_data, session->ws->data_ofs);
+  }
+
   /* Get WebSockets frame if not already completely in */
   if (!session->ws->all_hdr_in) {
     ret = session->sock.lfunc[COAP_LAYER_WS].l_read(session,
@@ -766,10 +774,9 @@ coap_ws_read(coap_session_t *session, uint8_t *data, size_t datalen) {
   ret = session->sock.lfunc[COAP_LAYER_WS].l_read(session,
                                                   &data[session->ws->data_ofs],
                                                   session->ws->data_size - session->ws->data_ofs);
-  if (ret <= 0)
-    return ret;
-  session->ws->data_ofs += ret;
-  if (session->ws->data_ofs == session->ws->data_size) {
+  if (ret > 0)
+    session->ws->data_ofs += ret;
+  if (ret > 0 && session->ws->data_ofs == session->ws->data_size) {
     if (session->ws->state == COAP_SESSION_TYPE_SERVER) {
       /* Need to unmask the data */
       coap_ws_mask_data(session, data, session->ws->data_size);
@@ -777,11 +784,26 @@ coap_ws_read(coap_session_t *session, uint8_t *data, size_t datalen) {
     session->ws->all_hdr_in = 0;
     session->ws->hdr_ofs = 0;
     session->ws->data_ofs = 0;
+    coap_free_type(COAP_STRING, session->ws->partial_data);
+    session->ws->partial_data = NULL;
     coap_log_debug("*  %s: ws:    recv %4zd bytes\n",
                    coap_session_str(session), session->ws->data_size);
     return session->ws->data_size;
   }
-  /* Need to get in all of the data */
+  /*
+   * Need to get in all of the data.  The caller's buffer does not survive
+   * until the next call, so keep what has arrived so far.
+   */
+  if (session->ws->data_ofs) {
+    if (!session->ws->partial_data)
+      session->ws->partial_data = coap_malloc_type(COAP_STRING,
+                                                   session->ws->data_size);
+    if (!session->ws->partial_data)
+      return -1;
+    memcpy(session->ws->partial_data, data, session->ws->data_ofs);
+  }
+  if (ret <= 0)
+    return ret;
   coap_log_debug("*  %s: Waiting Packet size %zu (got %zu)\n", coap_session_str(session),
                  session->ws->data_size, session->ws->data_ofs);
   return 0;
